@@ -60,7 +60,7 @@ predicate('RowDtypeHolds', ['tb'], 'implies(len(tb._blocks) > 0, not is_none(tb.
 
 _OLDN = 'old(len(self._index))'
 _OLDB = 'old(len(self._blocks))'
-contract(TB, 'TypeBlocks.append',
+contract(TB, 'TypeBlocks.append', modifies_self=True,
     props=['C09', 'C03', 'C01', 'C07'],
     params=dict(self='TypeBlocks', block='arr'), order=['self', 'block'], result='none',
     requires=['Dir(self)', 'Frozen(self)', 'block.ndim == 1 or block.ndim == 2',
